@@ -17,6 +17,11 @@ Fixpoint upto (n : nat) : list N := match n with O => [] | S m => upto m ++ [N.o
 Definition decode_ok (Q : N) (count : nat) : bool :=
   forallb (fun pauli => forallb (fun q => pair_eqb (got Q q pauli) (want (digit Q q pauli))) (if N.eqb Q 1 then [0] else [0; 1])) (upto count).
 Definition is_nil {A} (l : list A) : bool := match l with [] => true | _ => false end.
-Definition paulichan_all_ok : bool := is_nil paulichan_refused && decode_ok 1 3 && decode_ok 2 15.
+Definition has_wrapper (cls name : string) (n : N) : bool :=
+  existsb (fun '(c, r, k) => String.eqb c cls && String.eqb r name && N.eqb k n) paulichan_wrappers.
+Definition wrappers_ok : bool :=
+  has_wrapper "FrameSimulator" "do_PAULI_CHANNEL_1" 1 && has_wrapper "FrameSimulator" "do_PAULI_CHANNEL_2" 2 &&
+  has_wrapper "TableauSimulator" "do_PAULI_CHANNEL_1" 1 && has_wrapper "TableauSimulator" "do_PAULI_CHANNEL_2" 2.
+Definition paulichan_all_ok : bool := is_nil paulichan_refused && decode_ok 1 3 && decode_ok 2 15 && wrappers_ok.
 Theorem pauli_channel_arguments_are_decoded_as_documented : paulichan_all_ok = true.
 Proof. vm_compute. reflexivity. Qed.
